@@ -49,7 +49,7 @@ def close(ctx, got, ref, tol, what, exact=False, **kw):
 
 @st.composite
 def eval_cases(draw, tier):
-    spec = draw(gen.tt_specs(int_storage=True, **sizes(tier)))
+    spec = draw(gen.tt_specs(int_storage=True, int_mixed=True, **sizes(tier)))
     n = spec["n"]
     case = {"Y": spec, "I": draw(gen.indices(n)), "as_array": draw(st.booleans()),
             "shared_P": draw(st.booleans())}
@@ -73,6 +73,8 @@ def prop_eval(case, ctx):
     Y = gen.build_tt(spec, as_float=True)         # the float64 copy every reference value is computed from
     if spec.get("store"):
         ctx.label("stored_as:" + spec["store"])
+    if spec.get("int_at"):
+        ctx.label("integer_cores_among_float_cores")
     n, r = spec["n"], spec["r"]
     d = len(n)
     ex = exact_ok(spec)
@@ -209,9 +211,9 @@ def prop_eval(case, ctx):
 def binary_cases(draw, tier):
     kw = sizes(tier)
     kw["r_max"] = 4
-    s1 = draw(gen.tt_specs(int_storage=True, **kw))
-    s2 = draw(gen.tt_specs(shape=s1["n"], int_storage=True, **kw))
-    s3 = draw(gen.tt_specs(d_max=3, size_max=64, r_max=3, int_storage=True))
+    s1 = draw(gen.tt_specs(int_storage=True, int_mixed=True, **kw))
+    s2 = draw(gen.tt_specs(shape=s1["n"], int_storage=True, int_mixed=True, **kw))
+    s3 = draw(gen.tt_specs(d_max=3, size_max=64, r_max=3, int_storage=True, int_mixed=True))
     return {"Y1": s1, "Y2": s2, "Y3": s3, "c": draw(gen.numbers), "c2": draw(gen.numbers),
             "I": draw(gen.indices(s1["n"], m_max=12)), "y": draw(st.lists(gen.reals(-5, 5), min_size=12, max_size=12)), "yscale10": draw(st.sampled_from([0, 0, 0, -20, -30, 20]))}
 
@@ -241,13 +243,15 @@ def prop_binary(case, ctx):
     for s_ in (s1, s2, s3):
         if s_.get("store"):
             ctx.label("stored_as:" + s_["store"])
+        if s_.get("int_at"):
+            ctx.label("integer_cores_among_float_cores")
     for s in (s1, s2):
         ctx.label(*gen.spec_labels(s))
     ctx.label("number_operand")
     ctx.nontrivial(True)
     K = 32.0 * (d + sum(a * b for a, b in zip(s1["r"], s2["r"])) + sum(s1["r"]) + sum(s2["r"]) + max(n))
 
-    ints = any(s_.get("store") for s_ in (s1, s2, s3))      # results of integer-stored operands may be integer arrays (values still checked)
+    ints = any(s_.get("store") or s_.get("int_at") for s_ in (s1, s2, s3))      # results of integer-stored operands may be integer arrays (values still checked)
 
     def cmp(Z, ref, maj, what, exact=False):
         why = oracle.wellformed(Z, n, finite=False, int_ok=ints)
@@ -328,7 +332,7 @@ def tree_strategy(depth):
 @st.composite
 def program_cases(draw, tier):
     n = draw(gen.shapes(d_max=4 if tier == "quick" else 5, n_max=4, size_max=256))
-    leaves = [draw(gen.tt_specs(shape=n, r_max=2, families=("smallint", "dyadic", "float", "gauss", "zero", "explicit"), int_storage=True)) for _ in range(3)]
+    leaves = [draw(gen.tt_specs(shape=n, r_max=2, families=("smallint", "dyadic", "float", "gauss", "zero", "explicit"), int_storage=True, int_mixed=True)) for _ in range(3)]
     tree = draw(tree_strategy(3 if tier == "quick" else 4))
     outer_with = draw(st.one_of(st.none(), gen.tt_specs(d_max=2, n_max=3, r_max=2, size_max=9, int_storage=True)))
     return {"n": n, "leaves": leaves, "tree": tree, "outer": outer_with, "I": draw(gen.indices(n, m_max=6))}
@@ -381,7 +385,7 @@ def prop_program(case, ctx):
         ctx.check(abs(got - ref) <= 1e-12 * max(abs(maj), 1e-300) or got == ref, "number expression", got=got, ref=ref)
         return
     ctx.check(not _is_num(ref) or True, "")
-    why = oracle.wellformed(got, n, finite=False, int_ok=any(s.get("store") for s in case["leaves"]))
+    why = oracle.wellformed(got, n, finite=False, int_ok=any(s.get("store") or s.get("int_at") for s in case["leaves"]))
     ctx.check(why is None, f"program result is not a well-formed TT-tensor of shape {n}: {why}")
     ref = np.broadcast_to(ref, tuple(n)) if np.ndim(ref) == 0 else ref
     maj = np.broadcast_to(maj, tuple(n)) if np.ndim(maj) == 0 else maj
